@@ -23,6 +23,20 @@ import (
 	"pgregory.net/rapid"
 )
 
+// pick draws an index in [0,n) (nearly) uniformly.  rapid's integer generators favour small
+// values and range ends (index 0 of 24 came up four times as often as index 20), which is good
+// for sizes but wrong for choosing a subject; the draw is therefore scrambled.
+func pick(t *rapid.T, label string, n int) int {
+	x := rapid.Uint64().Draw(t, label)
+	x += 0x9e3779b97f4a7c15
+	x = (x ^ (x >> 30)) * 0xbf58476d1ce4e5b9
+	x = (x ^ (x >> 27)) * 0x94d049bb133111eb
+	x ^= x >> 31
+	return int(x % uint64(n))
+}
+
+func pickFrom[T any](t *rapid.T, label string, xs []T) T { return xs[pick(t, label, len(xs))] }
+
 type script struct {
 	name     string
 	letters  []rune   // base letters
@@ -170,23 +184,23 @@ type Text struct {
 }
 
 func genWord(t *rapid.T, sc *script) string {
-	k := rapid.IntRange(0, 9).Draw(t, "wordKind")
+	k := pick(t, "wordKind", 10)
 	switch {
 	case k <= 2 && len(sc.words) > 0:
-		return rapid.SampledFrom(sc.words).Draw(t, "word")
+		return pickFrom(t, "word", sc.words)
 	case k == 3 && len(sc.suffixes) > 0:
 		// stem + an ending the stemmers look for (+ optional prefix)
 		var b strings.Builder
 		if len(sc.prefixes) > 0 && rapid.Bool().Draw(t, "withPrefix") {
-			b.WriteString(rapid.SampledFrom(sc.prefixes).Draw(t, "prefix"))
+			b.WriteString(pickFrom(t, "prefix", sc.prefixes))
 		}
 		n := rapid.IntRange(0, 7).Draw(t, "stemLen")
 		for i := 0; i < n; i++ {
 			b.WriteRune(rapid.SampledFrom(sc.letters).Draw(t, "letter"))
 		}
-		b.WriteString(rapid.SampledFrom(sc.suffixes).Draw(t, "suffix"))
+		b.WriteString(pickFrom(t, "suffix", sc.suffixes))
 		if rapid.IntRange(0, 3).Draw(t, "twoSuffixes") == 0 {
-			b.WriteString(rapid.SampledFrom(sc.suffixes).Draw(t, "suffix2"))
+			b.WriteString(pickFrom(t, "suffix2", sc.suffixes))
 		}
 		return b.String()
 	default:
@@ -203,15 +217,15 @@ func genWord(t *rapid.T, sc *script) string {
 }
 
 func genHostile(t *rapid.T) string {
-	switch rapid.IntRange(0, 5).Draw(t, "hostileKind") {
+	switch pick(t, "hostileKind", 6) {
 	case 0, 1, 2:
-		return rapid.SampledFrom(hostile).Draw(t, "hostileConst")
+		return pickFrom(t, "hostileConst", hostile)
 	case 3:
 		// raw bytes
 		return string(rapid.SliceOfN(rapid.Byte(), 1, 4).Draw(t, "rawBytes"))
 	case 4:
 		// a rune of some script cut short
-		sc := &scripts[rapid.IntRange(0, len(scripts)-1).Draw(t, "cutScript")]
+		sc := &scripts[pick(t, "cutScript", len(scripts))]
 		r := rapid.SampledFrom(sc.letters).Draw(t, "cutRune")
 		var buf [4]byte
 		n := utf8.EncodeRune(buf[:], r)
@@ -229,13 +243,13 @@ func genHostile(t *rapid.T) string {
 func genText(t *rapid.T) Text {
 	var tx Text
 	tx.Scripts = map[string]bool{}
-	shape := rapid.IntRange(0, 199).Draw(t, "shape")
+	shape := pick(t, "shape", 200)
 	switch {
 	case shape == 0:
 		return tx // the empty input
 	case shape == 1:
 		// one very long token (> 4096 bytes), optionally with a neighbour
-		sc := &scripts[rapid.IntRange(0, len(scripts)-1).Draw(t, "longScript")]
+		sc := &scripts[pick(t, "longScript", len(scripts))]
 		unit := genWord(t, sc)
 		if unit == "" || strings.TrimSpace(unit) == "" {
 			unit = "x"
@@ -257,15 +271,15 @@ func genText(t *rapid.T) Text {
 		tx.Scripts["long-token"] = true
 		return tx
 	}
-	hostility := rapid.IntRange(0, 9).Draw(t, "hostility") // 0-2: none, 3-8: some, 9: mostly
-	mainScript := rapid.IntRange(0, len(scripts)-1).Draw(t, "mainScript")
-	n := rapid.IntRange(1, 14).Draw(t, "pieces")
+	hostility := pick(t, "hostility", 10) // 0-2: none, 3-8: some, 9: mostly
+	mainScript := pick(t, "mainScript", len(scripts))
+	n := 1 + pick(t, "pieces", 14)
 	if shape < 14 {
-		n = rapid.IntRange(15, 60).Draw(t, "manyPieces")
+		n = 15 + pick(t, "manyPieces", 46)
 	}
 	var b []byte
 	for i := 0; i < n; i++ {
-		h := rapid.IntRange(0, 19).Draw(t, "pieceKind")
+		h := pick(t, "pieceKind", 20)
 		bad := false
 		switch {
 		case hostility >= 9:
@@ -282,8 +296,8 @@ func genText(t *rapid.T) Text {
 			}
 		} else {
 			si := mainScript
-			if rapid.IntRange(0, 4).Draw(t, "otherScript") == 0 {
-				si = rapid.IntRange(0, len(scripts)-1).Draw(t, "script")
+			if pick(t, "otherScript", 5) == 0 {
+				si = pick(t, "script", len(scripts))
 			}
 			sc := &scripts[si]
 			w := genWord(t, sc)
@@ -291,7 +305,7 @@ func genText(t *rapid.T) Text {
 			tx.Words = append(tx.Words, w)
 			tx.Scripts[sc.name] = true
 		}
-		b = append(b, rapid.SampledFrom(separators).Draw(t, "sep")...)
+		b = append(b, pickFrom(t, "sep", separators)...)
 	}
 	tx.Bytes = b
 	return tx
@@ -311,11 +325,11 @@ func wordsFromText(t *rapid.T, tx Text, label string) []string {
 	}
 	for i := 0; i < n; i++ {
 		if len(tx.Words) == 0 || rapid.IntRange(0, 5).Draw(t, label+"Foreign") == 0 {
-			sc := &scripts[rapid.IntRange(0, len(scripts)-1).Draw(t, label+"Script")]
+			sc := &scripts[pick(t, label+"Script", len(scripts))]
 			add(genWord(t, sc))
 			continue
 		}
-		w := rapid.SampledFrom(tx.Words).Draw(t, label+"Word")
+		w := pickFrom(t, label+"Word", tx.Words)
 		rs := []rune(w)
 		switch rapid.IntRange(0, 3).Draw(t, label+"Form") {
 		case 0:
